@@ -68,7 +68,7 @@ def case(draw):
     coll_bias = st.one_of(
         ptrees.value_tree(max_leaves=8),
         st.lists(ptrees.task_tree_from(ptrees.scalar_tree(), None), min_size=1, max_size=3).map(lambda xs: {'k': 'list', 'items': xs}),
-        st.lists(st.tuples(ptrees.key_strategy(False), st.one_of(ptrees.task_tree_from(ptrees.scalar_tree(), None),
+        st.lists(st.tuples(ptrees.key_strategy(True), st.one_of(ptrees.task_tree_from(ptrees.scalar_tree(), None),
                                                                    ptrees.scalar_tree())), min_size=1, max_size=3,
                  unique_by=lambda kv: tuple(kv[0])).map(lambda xs: {'k': 'dict', 'items': [list(x) for x in xs]}),
     )
@@ -222,7 +222,7 @@ def plan(tier: str) -> list[dict]:
 
 
 def strategy():
-    return case().filter(lambda sp: all(marker_free(t) for t in sp['tasks']))
+    return case()      # dicts using the serializer's marker keys are included since the escaping fix (0e27685)
 
 
 def run_job(rec: core.Recorder, job: dict, seed: int) -> None:
